@@ -10,6 +10,9 @@
 (* WriteLock.  Files hold at most one statement: ref[f] = 0 (missing) or    *)
 (* the ID it carries.                                                       *)
 (*                                                                         *)
+(* With Discipline = "flock" (TwoRunsLocked.cfg) all three invariants hold:  *)
+(* serialising whole runs on the lock file is sufficient.                  *)
+(*                                                                         *)
 (* GlobalUnique is EXPECTED TO BE REFUTED by TLC (a documented hazard, not *)
 (* one of C01-C18, which quantify over single runs and sequential          *)
 (* histories); LostUpdate shows the second symptom: a reference written by *)
@@ -18,7 +21,9 @@
 (***************************************************************************)
 EXTENDS Integers, FiniteSets, Sequences, TLC
 
-CONSTANTS Procs, Files, StartLock
+CONSTANTS Procs, Files, StartLock,
+          Discipline   \* "none": as implemented;  "flock": a run holds an advisory lock on Breadlog.lock from reading the
+                       \* next ID until it has written the new one (what would restore the invariants)
 
 VARIABLES ref,      \* [Files -> Nat] 0 = statement lacks a reference
           lock,     \* recorded next ID
@@ -40,7 +45,9 @@ Init == /\ ref = [f \in Files |-> 0]
         /\ holding = [p \in Procs |-> "none"]
         /\ wrote = {}
 
+Busy(q) == pc[q] \in {"work", "lockwrite"}
 ReadNext(p) == /\ pc[p] = "start"
+               /\ Discipline = "flock" => \A q \in Procs \ {p} : ~Busy(q)
                /\ counter' = [counter EXCEPT ![p] = lock]
                /\ pc' = [pc EXCEPT ![p] = "work"]
                /\ UNCHANGED <<ref, lock, todo, seen, holding, wrote>>
